@@ -1,0 +1,46 @@
+//go:build verif
+// +build verif
+
+package tars
+
+import "sync/atomic"
+
+// Verification hooks (build tag verif only) for the request id generator and the pending-reply table:
+// read/set accessors for the process-wide counter, the real genRequestID, and read-only views of a proxy's
+// adapters (ids still registered in AdapterProxy.resp, queueLen). Nothing here changes behaviour.
+
+// VerifC08MaxInt32 returns the wrap threshold as the compiler sees it.
+func VerifC08MaxInt32() int32 { return maxInt32 }
+
+// VerifC08MsgID reads the process-wide request id counter.
+func VerifC08MsgID() int32 { return atomic.LoadInt32(&msgID) }
+
+// VerifC08SetMsgID positions the process-wide request id counter.
+func VerifC08SetMsgID(v int32) { atomic.StoreInt32(&msgID, v) }
+
+// VerifC08GenRequestID calls the real generator.
+func VerifC08GenRequestID(s *ServantProxy) int32 { return s.genRequestID() }
+
+// VerifC08PendingIDs lists the request ids that still have an entry in the pending-reply table of any adapter of s.
+func VerifC08PendingIDs(s *ServantProxy) []int32 {
+	var ids []int32
+	em, ok := s.manager.(*endpointManager)
+	if !ok || em.epList == nil {
+		return ids
+	}
+	em.epList.Range(func(_, v interface{}) bool {
+		if adp, ok := v.(*AdapterProxy); ok {
+			adp.resp.Range(func(k, _ interface{}) bool {
+				if id, ok := k.(int32); ok {
+					ids = append(ids, id)
+				}
+				return true
+			})
+		}
+		return true
+	})
+	return ids
+}
+
+// VerifC08QueueLen reads the proxy's in-flight counter.
+func VerifC08QueueLen(s *ServantProxy) int32 { return atomic.LoadInt32(&s.queueLen) }
